@@ -105,6 +105,61 @@ func H_C13_fmt() {
 			want = append(want, '.')
 			want = digitsOf(want, sModPow10(N, P), P)
 		}
+	case 'g', 'G':
+		// strconv's %g: round to P significant digits (0 means 1), drop trailing zeros (nd digits are
+		// left), then %e with nd-1 decimals if the exponent is < -4 or >= eprec, else %f with
+		// max(nd-X, 0) decimals; eprec = P, except eprec = nd when P > nd >= X.
+		PP := P
+		if PP == 0 {
+			PP = 1
+		}
+		r := roundRef(M, false, 0, PP, x.mode, x.neg, nd, nd)
+		X := int(vConcI(int64(x.exp) + (r.exp - int64(nd))))
+		tz := int64(0)
+		for j := 1; j <= PP-1; j++ {
+			tz = vIteI(sIsZero(sModPow10(r.M, j)), int64(j), tz)
+		}
+		nz := int(vConcI(tz))
+		ndg := PP - nz
+		D := sDivPow10(r.M, nz)
+		eprec := PP
+		if eprec > ndg && ndg >= X {
+			eprec = ndg
+		}
+		if e := X - 1; e < -4 || e >= eprec {
+			want = digitsOf(want, sDivPow10(D, ndg-1), 1)
+			if ndg > 1 {
+				want = append(want, '.')
+				want = digitsOf(want, sModPow10(D, ndg-1), ndg-1)
+			}
+			want = append(want, f+'e'-'g')
+			if e < 0 {
+				want = append(want, '-')
+				e = -e
+			} else {
+				want = append(want, '+')
+			}
+			ne := 2
+			for t := 100; e >= t; t *= 10 {
+				ne++
+			}
+			want = digitsOf(want, sI(int64(e)), ne)
+		} else if X <= 0 {
+			want = append(want, '0', '.')
+			for i := 0; i < -X; i++ {
+				want = append(want, '0')
+			}
+			want = digitsOf(want, D, ndg)
+		} else if X >= ndg {
+			want = digitsOf(want, D, ndg)
+			for i := 0; i < X-ndg; i++ {
+				want = append(want, '0')
+			}
+		} else {
+			want = digitsOf(want, sDivPow10(D, ndg-X), X)
+			want = append(want, '.')
+			want = digitsOf(want, sModPow10(D, ndg-X), ndg-X)
+		}
 	}
 	vAssert("C13.layout", sameBytes(got, want))
 	vReach("end")
@@ -125,5 +180,129 @@ func H_C13_zero() {
 	})
 	vAssert("C13.nopanic", k == 0)
 	vAssert("C13.zero", sameBytes(got, want))
+	vReach("end")
+}
+
+// vState is a fmt.State whose flags, width and precision are harness inputs.
+type vState struct {
+	buf                       []byte
+	wid, prec                 int
+	hasWid, hasPrec           bool
+	plus, minus, space, zero_ bool
+}
+
+func (s *vState) Write(b []byte) (int, error) { s.buf = append(s.buf, b...); return len(b), nil }
+func (s *vState) Width() (int, bool)          { return s.wid, s.hasWid }
+func (s *vState) Precision() (int, bool)      { return s.prec, s.hasPrec }
+func (s *vState) Flag(c int) bool {
+	switch c {
+	case '+':
+		return s.plus
+	case '-':
+		return s.minus
+	case ' ':
+		return s.space
+	case '0':
+		return s.zero_
+	}
+	return false
+}
+
+// fmtPad is fmt's (*fmt).pad: width padding on the left (zeros if the zero
+// flag is in force, else spaces) or, with '-', spaces on the right.
+func fmtPad(out, b []byte, wid int, hasWid, minus, zero bool) []byte {
+	n := 0
+	if hasWid && wid > len(b) {
+		n = wid - len(b)
+	}
+	if !minus {
+		for i := 0; i < n; i++ {
+			if zero {
+				out = append(out, '0')
+			} else {
+				out = append(out, ' ')
+			}
+		}
+		return append(out, b...)
+	}
+	out = append(out, b...)
+	for i := 0; i < n; i++ {
+		out = append(out, ' ')
+	}
+	return out
+}
+
+// H_C13_format: (*Decimal).Format behind the fmt verbs, for every combination
+// of the '+', '-', ' ' and '0' flags that fmt can pass (fmt clears '0' when '-'
+// is present), every width 0..wmax or none, with and without a precision:
+// output == fmt's float layout (fmt/format.go fmtFloat: sign selection, zero
+// padding between sign and digits, no zero padding of infinities) around the
+// digits Append produces for the verb's strconv format and default precision.
+func H_C13_format() {
+	verb := rune(vCfg("verb"))
+	var x *Decimal
+	if v := vCfgOr("v", 0); v != 0 {
+		// concrete magnitude (the digits are H_C13_fmt's business), symbolic sign and mode
+		x = new(Decimal).SetPrec(19).SetUint64(uint64(v))
+		x.SetMantExp(x, vCfgOr("e", 0))
+		x.neg = vBool("x.neg")
+		x.mode = RoundingMode(vI64("x.mode", 0, 5))
+	} else {
+		x = vDec("x", vCfg("fx"), 1, 0, 0)
+		if x.form == finite {
+			vAssume(vAnd(int(x.exp) >= vCfgOr("elo", 0), int(x.exp) <= vCfgOr("ehi", 1)))
+		}
+	}
+	st := &vState{prec: vCfgOr("P", 2), hasPrec: vBool("st.hasPrec"), hasWid: vBool("st.hasWid"),
+		plus: vBool("st.plus"), minus: vBool("st.minus"), space: vBool("st.space"), zero_: vBool("st.zero")}
+	st.wid = int(vConcI(vI64("st.wid", 0, int64(vCfgOr("wmax", 12)))))
+	vAssume(!vAnd(st.minus, st.zero_))
+	if vCfgOr("noprec", 0) == 1 {
+		vAssume(!st.hasPrec)
+	}
+	k := vCatch(func() { x.Format(st, verb) })
+	vAssert("C13.nopanic", k == 0)
+	if k != 0 {
+		return
+	}
+	// the digits: strconv format and default precision of the verb
+	f, P := byte(verb), 6
+	switch verb {
+	case 'F':
+		f = 'f'
+	case 'v':
+		f, P = 'g', -1
+	case 'g', 'G':
+		P = -1
+	}
+	if st.hasPrec {
+		P = st.prec
+	}
+	num := x.Append(nil, f, P)
+	if num[0] != '-' && num[0] != '+' {
+		num = append([]byte{'+'}, num...)
+	}
+	if st.space && num[0] == '+' && !st.plus {
+		num[0] = ' '
+	}
+	zero := st.zero_
+	var want []byte
+	if x.form == inf {
+		// infinities keep their sign (a '+' unless the space flag replaced it) and are never zero padded
+		want = fmtPad(want, num, st.wid, st.hasWid, st.minus, false)
+	} else if st.plus || num[0] != '+' {
+		if zero && st.hasWid && st.wid > len(num) {
+			want = append(want, num[0])
+			for i := 0; i < st.wid-len(num); i++ {
+				want = append(want, '0')
+			}
+			want = append(want, num[1:]...)
+		} else {
+			want = fmtPad(want, num, st.wid, st.hasWid, st.minus, zero)
+		}
+	} else {
+		want = fmtPad(want, num[1:], st.wid, st.hasWid, st.minus, zero)
+	}
+	vAssert("C13.format", sameBytes(st.buf, want))
 	vReach("end")
 }
